@@ -291,6 +291,12 @@ def small_wellformed(ctx, r):
         r.shuffle(fields)
         for _ in range(r.randint(0, 4)):
             fields.insert(r.randint(0, len(fields)), r.choice(EXTRA_FIELDS))
+    if r.random() < 0.15:
+        # a long header: so many descriptive fields that the field text itself runs past the first 1024-byte block
+        # (mandatory fields, end_head, or a line straddling byte 1024 lie in the second or a later block)
+        for k in range(r.choice([25, 40, 60, 120])):
+            fields.insert(r.randint(0, len(fields)), ("note_%d" % k, "-s%d" % 20, "x" * 20))
+        ctx.count("wellformed:field-text-beyond-1024")
     if style < 0.15:  # a duplicated key: the last occurrence wins
         k = r.randrange(len(fields))
         if fields[k][0] in ("channel_count", "sample_count"):
